@@ -225,7 +225,7 @@ Proof.
   destruct (reorg_if_needed T fuel st1 x) as [[st2 ev2]|] eqn:ER; [|discriminate].
   destruct (write_head_block fuel st2 x) as [st3|] eqn:EH; [|discriminate].
   inversion H; subst.
-  apply (P_wkb fuel st1 x _ ev2); eauto.
+  apply (P_wkb fuel st1 x _ (ev2 ++ whb_purge (canon st2) x)); eauto.
   - apply (wbws_known _ _ _ 0 EW).
   - unfold write_known_block. now rewrite ER, EH.
 Qed.
@@ -414,7 +414,7 @@ Proof.
   destruct e1; [inversion H; subst; auto|].
   destruct (reorg_if_needed T fuel st1 x) as [[st2 ev2]|] eqn:ERI; [|inversion H; subst; auto].
   destruct (write_head_block fuel st2 x) as [st3|] eqn:EH; inversion H; subst.
-  - apply (P_wkb fuel st1 x _ ev2); auto. unfold write_known_block. now rewrite ERI, EH.
+  - apply (P_wkb fuel st1 x _ (ev2 ++ whb_purge (canon st2) x)); auto. unfold write_known_block. now rewrite ERI, EH.
   - (* out of fuel after the reorg: the state returned is the reorg's *)
     exact HP1.
 Qed.
